@@ -4,6 +4,7 @@ package main
 // state shared by all runs.
 
 import (
+	"sync/atomic"
 	"fmt"
 	"go/types"
 	"os"
@@ -35,6 +36,7 @@ type Engine struct {
 	runtimeErrorString types.Type
 
 	crossCheck     bool
+	crossSeen      atomic.Int64 // unsat assertion queries seen by the current harness
 	concreteMode   bool
 	concreteInputs map[string]uint64
 
@@ -237,4 +239,12 @@ func (e *Engine) findHarness(name string) *ssa.Function {
 		}
 	}
 	return nil
+}
+
+
+// crossCheckDue: the second solver re-decides the first 2000 unsat assertion
+// queries of a harness and every 64th after that (one process start per query).
+func (e *Engine) crossCheckDue() bool {
+	n := e.crossSeen.Add(1)
+	return n <= 2000 || n%64 == 0
 }
